@@ -22,7 +22,8 @@ def generate(src_root):
     for h, p in HEADERS:
         path = os.path.join(src_root, "kernel/gp/src/primitive/%s.h" % h)
         try:
-            i, pr = cxx_mini.translate_header(path, p, os.path.join(src_root, "utility/utility.h"))
+            i, pr = cxx_mini.translate_header(path, p, os.path.join(src_root, "utility/utility.h"),
+                                                  os.path.join(src_root, "kernel/value.h"))
         except (cxx_mini.OutsideSubset, OSError, ValueError) as e:
             i, pr = [], ["%s.h: %s" % (h, e)]
         infos += i
